@@ -19,7 +19,7 @@ SKIP_VECTORS = {"v7"}      # the opt-in shorthand / literal-spelling rewrites: n
 def jobs_for(tier, seed):
     pts = universe.points(tier, seed, files_quick=900, narrow=True)
     for i, (name, text) in enumerate(universe.boundary_sources()):
-        for w in ((60, 100) if tier == "quick" else (40, 60, 80, 100, 120)):
+        for w in ((60, 100, 125) if tier == "quick" else (23, 37, 40, 60, 77, 80, 100, 105, 120, 125, 137, 199)):
             se = universe.STYLE_EDITIONS[(core.fnv(name.encode()) + w) % 3]
             pts.append((f"{name}@w={w},se={se},v0", name, text,
                         {"max_width": w, "style_edition": se}))
